@@ -2,7 +2,7 @@
 from ..rules import branching, model, search, shaving, capacity
 
 EXPLANATION = (
-    'Static analysis (abstract interpretation over affine forms, no execution): every registered value heuristic is interpreted from the symbolic pre-state D[T,d]=[lo,hi], lo<hi; on each abstract path the sub-ranges left at levels T..T+k must form the chain lo=l0, u_i+1=l_{i+1}, u_last=hi with every sub-range provably non-empty (Fourier-Motzkin over the path facts and the floor-division axiom), no store may address another domain or a level below T, the returned mask and each recorded replay mask must contain the bit of every bound that differs from the pre-state and GROUND whenever the sub-range may be a single value; cp_put, backtrack and cp_init are checked against the copy-on-push / untouched-on-pop / replay-saved-events oracle. Also: the decision\'s events are handed over unmodified to the wake-up on the new top\'s flags row; every new level starts as a copy of the level branched from (flags row and all other domains); min-cost scans [lo, hi] entirely; the event constants are distinct bits. Round 3: the un-probing of shaving re-queues the watchers of the removed bound; all arrays that carry shared-domain indices have one integer type.'
+    'Static analysis (abstract interpretation over affine forms, no execution): every registered value heuristic is interpreted from the symbolic pre-state D[T,d]=[lo,hi], lo<hi; on each abstract path the sub-ranges left at levels T..T+k must form the chain lo=l0, u_i+1=l_{i+1}, u_last=hi with every sub-range provably non-empty (Fourier-Motzkin over the path facts and the floor-division axiom), no store may address another domain or a level below T, the returned mask and each recorded replay mask must contain the bit of every bound that differs from the pre-state and GROUND whenever the sub-range may be a single value; cp_put, backtrack and cp_init are checked against the copy-on-push / untouched-on-pop / replay-saved-events oracle. Also: the decision\'s events are handed over unmodified to the wake-up on the new top\'s flags row; every new level starts as a copy of the level branched from (flags row and all other domains); the event constants are distinct bits. Round 3: the un-probing of shaving re-queues the watchers of the removed bound; all arrays that carry shared-domain indices have one integer type. Round 4: the chosen value starts inside [lo, hi] and is only assigned the index of a range provably inside [lo, hi] (fix 31b7d71: it started at -1 on the pinned tree).'
 )
 
 
